@@ -197,6 +197,28 @@ func (w *World) checkLinkKeyEntry(n *Node, e iface.IPFSLogEntry, me *MEntry) {
 	if err := dec.Verify(n.W.ID.Provider, w.IO); err != nil {
 		r.Violate("C18:same-key-verify", "entry %s (next=%d refs=%d) decoded with the same key does not verify: %v", w.M.Name(me.Hash), len(me.Next), len(me.Refs), err)
 	}
+	// the entry API's own write options (pinned, written in its pre-signature form): whatever the
+	// options, a block written through the keyed codec must not expose the links
+	if k := r.Choose("republish-opts", 6); k < 3 {
+		opts := []*iface.CreateEntryOptions{{Pin: true}, {PreSigned: true}, {PreSigned: true, Pin: true}}[k]
+		from := len(w.St.Writes)
+		_, err := entry.ToMultihashWithIO(w.ctx, e, w.St, opts, w.IO)
+		r.Logf("  re-publish %s with options pin=%v presigned=%v err=%v", w.M.Name(me.Hash), opts.Pin, opts.PreSigned, err != nil)
+		r.Probe("linkkey-entry-written-with-options")
+		for _, wr := range w.St.Writes[from:] {
+			for _, h := range w.M.Order {
+				if h == me.Hash {
+					continue
+				}
+				if how := leaks(wr.Bytes, w.Cids[h]); how != "" {
+					r.Violate("C18:leak", "block of %s written with options pin=%v presigned=%v contains the identifier of %s (%s form)", w.M.Name(me.Hash), opts.Pin, opts.PreSigned, w.M.Name(h), how)
+				}
+			}
+			if nd, err := cbornode.Decode(wr.Bytes, mh.SHA2_256, -1); err == nil && len(nd.Links()) != 0 {
+				r.Violate("C18:links", "block of %s written with options pin=%v presigned=%v exposes %d traversable links", w.M.Name(me.Hash), opts.Pin, opts.PreSigned, len(nd.Links()))
+			}
+		}
+	}
 	// other key / no key: no links
 	for _, rd := range []struct {
 		name string
